@@ -164,6 +164,12 @@ def random_spec(rng, hostile):
     if rng.random() < 0.5:
         spec["repository"] = {"owner": G.hostile_string(rng) if hostile else "owner", "name": G.hostile_string(rng) if hostile else "name",
                               "branch": rng.choice([G.hostile_string(rng) if hostile else "main", "feature/x", None])}
+    if len(spec["entries"]) >= 2 and rng.random() < 0.3:
+        # same checksum, different measurements (the same bytes under two languages are measured differently)
+        a, b = rng.sample(range(len(spec["entries"])), 2)
+        spec["entries"][b]["checksum"] = spec["entries"][a]["checksum"]
+        if rng.random() < 0.5 and len(spec["entries"]) >= 3:
+            spec["entries"][rng.randrange(len(spec["entries"]))]["checksum"] = spec["entries"][a]["checksum"]
     k = rng.random()
     if k < 0.25:
         spec["version"] = rng.choice(["0.0.1", "99.0", "v\"1", ""])
